@@ -48,11 +48,15 @@ EXTRAPS = {
     "linear_backward": (fn.extrap_linear_backward, {}),
     "expdecay": (fn.extrap_expdecay, {"time_constant": TAU}),
     "expratedecay": (fn.extrap_expratedecay, {"rate_constant": RATE}),
+    # the documented ``adjust`` hook f of the linear extrapolations (anchored bracket end becomes f(D))
+    "linear_forward+adjust": (fn.extrap_linear_forward, {"adjust": lambda d: d * 0.5 + 1.0}),
+    "linear_backward+adjust": (fn.extrap_linear_backward, {"adjust": lambda d: d * 0.5 + 1.0}),
 }
 PAIRS = [
     ("previous", "previous"), ("next", "next"), ("nearest", "nearest"),
     ("neighbors", "nearest"), ("neighbors", "previous"), ("neighbors", "next"), ("neighbors", "linear"),
     ("linear_forward", "linear"), ("linear_backward", "linear"),
+    ("linear_forward+adjust", "linear"), ("linear_backward+adjust", "linear"),
     ("expdecay", "expdecay"), ("expratedecay", "expratedecay"),
 ]
 
@@ -88,6 +92,12 @@ def ref_extrap(name, x, prev, nxt, elapsed, dt):
         return prev, prev + (x - prev) / elapsed * dt
     if name == "linear_backward":
         return nxt - (nxt - x) / (dt - elapsed) * dt, nxt
+    if name == "linear_forward+adjust":
+        pv = prev * 0.5 + 1.0
+        return pv, pv + (x - pv) / elapsed * dt
+    if name == "linear_backward+adjust":
+        nv = nxt * 0.5 + 1.0
+        return nv - (nv - x) / (dt - elapsed) * dt, nv
     if name == "expdecay":
         return x * math.exp(elapsed / TAU), x * math.exp((elapsed - dt) / TAU)
     if name == "expratedecay":
@@ -300,13 +310,16 @@ def shard(dtf, N, tier, pushes_list=None):
                         if nondyadic_dt and ename == "nearest" and half_step(t, dt):
                             continue
                         for mode in ("scalar", "tensor"):
-                            for inplace in (False, True):
+                            for inplace, obs64 in ((False, False), (True, False), (False, True)):
+                                # obs64: a float64 observation into float32 storage - the record keeps its own dtype (documented conversion)
                                 if quick and inplace and mode == "tensor" and off != 0:
+                                    continue
+                                if obs64 and (loc[0] != "between" or (quick and ename not in ("neighbors", "linear_forward", "expdecay"))):
                                     continue
                                 r2 = Ring(dt, N, E, pushes)
                                 x = [1000.0 + e for e in range(E)]
                                 case = {"op": "insert", "dt": float(dt), "N": N, "pushes": pushes, "offset": off, "tol": float(tol),
-                                        "time": float(t), "extrap": ename, "mode": mode, "inplace": inplace}
+                                        "time": float(t), "extrap": ename, "mode": mode, "inplace": inplace, "obs_dtype": "float64" if obs64 else "float32"}
                                 tally.add("evaluations")
                                 if mode == "scalar":
                                     targ = float(t)
@@ -317,7 +330,8 @@ def shard(dtf, N, tier, pushes_list=None):
                                     if F(float(targ[0])) != t:
                                         continue
                                 try:
-                                    r2.rt.insert(torch.tensor(x), targ, efn, tolerance=float(tol), offset=off, inplace=inplace, extrap_kwargs=ekw)
+                                    r2.rt.insert(torch.tensor(x, dtype=torch.float64 if obs64 else torch.float32), targ, efn, tolerance=float(tol), offset=off,
+                                                 inplace=inplace, extrap_kwargs=ekw)
                                     err = None
                                 except Exception as ex:
                                     err = ex
@@ -329,6 +343,10 @@ def shard(dtf, N, tier, pushes_list=None):
                                     continue
                                 if err is not None:
                                     tally.violation(f"insert:{mode}:rejected-valid", case, f"valid time rejected: {err}", None, repr(err))
+                                    continue
+                                if r2.rt.value.dtype != torch.float32:
+                                    tally.violation(f"insert:{mode}:storage-dtype", case, f"the insert changed the storage dtype from float32 to {r2.rt.value.dtype}",
+                                                    "torch.float32", str(r2.rt.value.dtype))
                                     continue
                                 expM = [list(r) for r in r2.M]
                                 elems = [(0, loc)] if mode == "tensor" else [(e, loc) for e in range(E)]
@@ -348,8 +366,8 @@ def shard(dtf, N, tier, pushes_list=None):
                                             expM[(off + f_) % N][e] = nv
                                 got = r2.storage_logical()
                                 okk = True
-                                illcond = ename in ("linear_forward", "linear_backward") and not dyadic(t)
-                                inexact = nondyadic_dt and ename in ("linear_forward", "linear_backward", "expdecay", "expratedecay")
+                                illcond = ename.startswith("linear_") and not dyadic(t)
+                                inexact = nondyadic_dt and (ename.startswith("linear_") or ename in ("expdecay", "expratedecay"))
                                 for k in range(N):
                                     for e in range(E):
                                         if expM[k][e] is None:
